@@ -97,13 +97,15 @@ def eval_input(i, data):
             viols.append(Violation(PROP, 'call', {'kind': 'raises', 'exc': type(ex).__name__, 'form': form}, {'index': i, 'maxlen': maxlen},
                                    {'paths': repr(paths), 'raised': repr(ex)[:200]}))
             continue
-        # a result must stay what it was after the next call (no shared result object)
-        if _PREV[0] is not None:
-            ref, snap, desc = _PREV[0]
-            if repr(ref) != snap:      # content, not identity: returning one memoised object for equal inputs would be fine
-                viols.append(Violation(PROP, 'aliasing', {'kind': 'earlier-result-changed-by-a-later-call', 'same_object': ref is ann},
-                                       {'index': i, 'maxlen': maxlen}, {'earlier call': desc, 'this call': repr(paths)[:200]}))
-        _PREV[0] = (ann, repr(ann), repr(paths)[:200])
+        # a result must stay what it was after the next call on other paths (no shared result object)
+        snap = repr(ann)
+        try:
+            al.annotate_paths([((S, 'q', 90), ('q', D, 95))])
+        except Exception:
+            pass
+        if repr(ann) != snap:
+            viols.append(Violation(PROP, 'aliasing', {'kind': 'earlier-result-changed-by-a-later-call'},
+                                   {'index': i, 'maxlen': maxlen}, {'first call': repr(paths)[:200], 'its result before': snap[:300], 'after a second call': repr(ann)[:300]}))
         inputs = collections.Counter(tuple(map(tuple, p)) for p in paths)
         for crit, want in exp.items():
             got = ann.get(crit)
